@@ -8,6 +8,12 @@ C03 driver.  Header `@ C03 rb` (zero-value RoaringBitmap).  Operations:
   drain hi start n step   remove the same values; answers #true
   range k | all k         enumerate with a callback answering false on its k-th call (0: never)
   iter                    for it.Next() { it.Value() }, then Next() once more
+  iterk k                 a fresh iterator advanced by at most k calls of Next (each followed by
+                          Value), then dropped; `end=true` when a Next answered false
+  rep                     the representation: `len=<len> nb=<number of buckets>` and per bucket in
+                          key order `hi:a<len(values)>#<hash of values>` (array container) or
+                          `hi:b<cached length>/<popcount>/<len(set)>#<hash of the words>` (bitmap
+                          container) — compared with the reflection dump of the real RoaringBitmap
 Enumerations are printed in full up to 24 elements, otherwise as count + hash + ends.
 -/
 namespace Golib.C03
@@ -27,6 +33,35 @@ def bulk (rm : Bool) (hi step : Nat) : Nat → Nat → RB → Nat → Option (RB
     match (if rm then r.remove v else r.add v) with
     | none => none
     | some (r', ok) => bulk rm hi step n (cur + step) r' (if ok then cnt + 1 else cnt)
+
+/-- Number of set bits of a word (`n &&& (n-1)` clears the lowest set bit; 64 rounds suffice). -/
+def popWord : Nat → Nat → Nat → Nat
+  | 0, _, acc => acc
+  | fuel + 1, n, acc => if n = 0 then acc else popWord fuel (n &&& (n - 1)) (acc + 1)
+
+def popcount (w : Array Word) : Nat := w.foldl (fun a x => popWord 64 x.toNat a) 0
+
+def hashWords (w : Array Word) : Nat :=
+  w.foldl (fun h x => (h * 1000003 + x.toNat % 2147483647 + 1) % 2147483647) 7
+
+def repBucket : Nat × Container → String
+  | (k, .arr v) => s!" {k}:a{v.size}#{hashNats v.toList}"
+  | (k, .bmp n w) => s!" {k}:b{n}/{popcount w}/{w.size}#{hashWords w}"
+
+/-- The representation dump of the model state (see the header comment). -/
+def rep (r : RB) : String :=
+  r.cs.foldl (fun s b => s ++ repBucket b) s!"len={r.len} nb={r.cs.length}"
+
+/-- `it := r.Iter(); for n < k && it.Next() { it.Value() }`: the values seen and whether a `Next`
+answered false; `none` = panic in `Value`. -/
+def iterTake (reset : Bool) : Nat → It → List Nat → Option (List Nat × Bool)
+  | 0, _, acc => some (acc.reverse, false)
+  | k + 1, it, acc =>
+    match it.next reset with
+    | (_, false) => some (acc.reverse, true)
+    | (it', true) => match it'.value with
+      | none => none
+      | some v => iterTake reset k it' (v :: acc)
 
 def u32? (s : String) : Option Nat :=
   match s.toNat? with
@@ -51,6 +86,9 @@ def step (r : RB) (t : List String) : Option (Option (RB × String)) :=
     else none
   | ["range", k] => k.toNat?.map fun k => some (r, summary (r.range k))
   | ["all", k] => k.toNat?.map fun k => some (r, summary (r.all k))
+  | ["rep"] => some (some (r, rep r))
+  | ["iterk", k] => k.toNat?.map fun k =>
+      (iterTake true k r.iter []).map fun (xs, e) => (r, summary xs ++ " end=" ++ showBool e)
   | ["iter"] =>
     some ((r.iterAll true).map fun (xs, it) => (r, summary xs ++ " again=" ++ showBool (it.next true).2))
   | _ => none
